@@ -147,7 +147,7 @@ def load_known(prop):
 def load_known_cases(prop):
     """known_findings/<prop>.cases.json: {finding id: {what, example, cases: [exact case ids]}} -> {case id: finding id}, {finding id: what}"""
     p = os.path.join(VERIF, 'known_findings', prop + '.cases.json')
-    if not os.path.exists(p):
+    if not os.path.exists(p) or os.environ.get('VERIF_NO_KNOWN_CASES'):      # maintenance runs (tools/mkfindings.py) dump everything
         return {}, {}
     d = json.load(open(p))
     m = {}; what = {}
@@ -174,7 +174,7 @@ class Check:
         self.replay_dir = os.path.join(OUT, 'replays', prop)
 
     def set_deadline(self, seconds):
-        self.deadline = self.t0 + seconds
+        self.deadline = self.t0 + float(os.environ.get('VERIF_DEADLINE', seconds))
     def expired(self):
         return self.deadline is not None and time.time() > self.deadline
 
